@@ -6,7 +6,7 @@ from ..core import Campaign, CaseResult, Violation, h
 from ..terms import to_smt, T, strip_named, names_in, free_symbols
 from .models import errkind
 
-N_QUICK = {"C08": 320, "C09": 220}
+N_QUICK = {"C08": 300, "C09": 200}
 N_THOROUGH = {"C08": 14000, "C09": 8000}
 
 
@@ -234,6 +234,12 @@ def case(param):
         if cls in seen:
             continue
         seen.add(cls)
+
+        from ..core import is_known
+        if is_known(prop, cls, site_for(cls, cmds, b[3])):
+            res.viol.append(Violation(cls, site_for(cls, cmds, b[3]), "%s (command #%d, not minimised: matches a known finding)\n%s" % (
+                cls, b[0], b[2][:600]), sr.witness(cmds, prop=prop)))
+            continue
 
         def pred(cand, cls=cls):
             bb, _ = judge(cand, prop)
